@@ -58,5 +58,15 @@ CHECKS = {
           "collector, so the batch-shared-with-marker path is never staged. Which regions are open (Epoch) is C09; schedule-level exactly-once is not decided.",
   "note": "Trusted: clang 14 CFG; std::thread/std::vector are opaque; the bounded queue (C01/C02) delivers what was pushed.",
   "technique": "static analysis: must-pass-through (typestate of the task buffer), edge-guard and counting rules over CFG facts; who-may-call pairing"},
+ "C09": {
+  "text": "Decides the shape of the Dekker pattern the epoch scheme rests on: region entry publishes a load of the global epoch into the "
+          "own slot only on the outermost entry and a seq_cst fence (or seq_cst store) post-dominates that store; tick is a seq_cst RMW "
+          "(or followed by a seq_cst fence) adding exactly one and returning old+1; the low-water-mark scan acquires every slot, is bounded "
+          "by all ids ever allocated (IdAllocator::end / ThreadId::end) and keeps the minimum starting from UINT64_MAX; leaving "
+          "release-stores UINT64_MAX only on the outermost exit with a balanced nesting counter; Accessor is move-only, swaps both "
+          "fields and unregisters at most once. A weakened fence or order never shows in sequentially consistent test interleavings on "
+          "x86. The sufficiency of these orders (the Dekker argument) and the non-x86 branch of tick() are not decided.",
+  "note": "Trusted: C++ memory model reasoning about seq_cst fences; host preprocessor branch (#if __x86_64__) only.",
+  "technique": "static analysis: memory-order, fence post-dominance, edge-guard and provenance rules over CFG facts"},
 }
 NOT_APPLICABLE = {("C%02d" % i): PENDING for i in range(1, 21) if ("C%02d" % i) not in CHECKS}
